@@ -21,6 +21,19 @@ def run(ctx):
         ok, out = ctx.run_harness(b, [tr, ctx.tier if label == "pure" else "simd"], tr)
         if ok:
             ctx.validate(TRACE_MODULE, tr, label=label, min_lines=600)
+    # the pre-C++11 bodies of the constructors (GLM_HAS_INITIALIZER_LISTS == 0) are separate code: the same harness under GLM_FORCE_CXX98,
+    # its shape-conversion / constructor events judged by the same trace specification (the rest of that trace is C15's business)
+    b = ctx.build("c02_cxx98", "c02.cpp", flags=["-DGLM_FORCE_CXX98"], label="c02 cxx98")
+    if b:
+        tr = ctx.scratch.path("c02_cxx98.ndjson")
+        ok, out = ctx.run_harness(b, [tr, ctx.tier], tr)
+        if ok:
+            trf = ctx.scratch.path("c02_cxx98_conv.ndjson")
+            with open(tr) as f, open(trf, "w") as g:
+                for ln in f:
+                    if '"op":"conv"' in ln or (not ctx.quick and '"op":"mm"' in ln):
+                        g.write(ln)
+            ctx.validate(TRACE_MODULE, trf, label="cxx98-conv", min_lines=600)
     ctx.rule("float, double, int, uint (+ int16, uint8 thorough): all 27 matrix products on every pair of basis matrices E_ij x E_kl (every index "
              "path of every hand-expanded product), dense distinct-prime matrices, exact dyadic fractions and random floats; 9 mat*vec and vec*mat "
              "shapes incl. aliasing forms; transpose, outerProduct, matrixCompMult, element-wise and scalar operators, compound assignments, "
